@@ -129,6 +129,7 @@ func newCtx(p *Program, db *SpecDB, fn string, loopMods map[string]map[string]*m
 	c.emit("(declare-fun elem (Int (_ BitVec 64)) Int)")
 	c.emit("(declare-fun elemD (Int) Int)")
 	c.emit("(declare-fun elemI (Int) (_ BitVec 64))")
+	c.emit("(define-fun isElemOf ((r Int) (d Int)) Bool (and (= (kind r) 1) (= (elemD r) d) (= r (elem (elemD r) (elemI r)))))")
 	c.emit("(declare-const now0 Int)")
 	return c
 }
@@ -710,4 +711,21 @@ func (c *Ctx) opaqueField(base Val, field string, ft types.Type) Val {
 	}
 	p := 0
 	return rebuild(tmpl, out, &p)
+}
+
+// elemOfPred: r is an element of backing store d, or the sub-object reached from an element through the
+// embedded-struct functions fns (outermost first).
+func (c *Ctx) elemOfPred(r, d string, fns []string) string {
+	if !c.elemAx {
+		c.elemAx = true
+		c.emit("(assert (forall ((d Int) (i (_ BitVec 64))) (! (and (= (elemD (elem d i)) d) (= (elemI (elem d i)) i) (= (kind (elem d i)) 1) (= (birth (elem d i)) (birth d)) (not (= (elem d i) 0))) :pattern ((elem d i)))))")
+	}
+	var cs []string
+	x := r
+	for _, fn := range fns {
+		cs = append(cs, "(= "+x+" ("+fn+" (inv."+fn+" "+x+")))")
+		x = "(inv." + fn + " " + x + ")"
+	}
+	cs = append(cs, "(isElemOf "+x+" "+d+")")
+	return and(cs...)
 }
